@@ -63,3 +63,10 @@ Lemma getN_lt : forall {A} (l : list A) i, i < N.of_nat (length l) -> exists x, 
 Proof.
   intros A l i H. destruct (nthN_lt l i H) as [x Hx]. exists x. unfold getN. rewrite Hx. auto.
 Qed.
+
+Lemma upd_same : forall {A} (l : list A) i x, nth_error l i = Some x -> upd l i x = l.
+Proof.
+  induction l as [|y l IH]; intros [|i] x H; cbn in *; try discriminate.
+  - inversion H; reflexivity.
+  - rewrite IH; auto.
+Qed.
